@@ -20,7 +20,7 @@ func init() {
 		Gen:   genC16,
 		Rule: "lists of length 0..8 (thorough 0..16) with unique elements (1 in 5: some elements occur twice) x option (nil, FixedPool in {-1,0,1,len-1,len,len+3,MaxInt,MaxInt/2,MinInt}) x RandomOrder; f logs begin, sleeps a data-dependent virtual duration " +
 			"(including 'later elements finish first'), yields, logs end; PMap's producer/worker/closer goroutines are simulated threads; oracles: ordered result == Map, random result is a permutation, " +
-			"f applied exactly once per element and to nothing else (an interface-typed instantiation whose f returns nil for some elements is run once more at the end), concurrency gauge <= min(FixedPool,len), PMap returns after the last application and within the horizon; " +
+			"f applied exactly once per element and to nothing else (an interface-typed instantiation whose f returns nil for some elements is run once more at the end), concurrency gauge <= min(FixedPool,len), PMap returns after the last application and within the horizon; f may call PMap itself (1 in 6; 1 run in 20000: a 1100-element list without pool option and such an f); " +
 			"non-trivial = >=2 applications overlapped; distinct = distinct context-switch signature" +
 			" Flavours: long lists with small pools and cheap f, further PMap calls (empty and non-empty, before and beside the main call) sharing the caller's option object.",
 		Real: []string{"fpgo.PMap (pMapPreserveOrder, pMapNoOrder: producer, workers, closer goroutines, WaitGroup)"},
@@ -40,6 +40,7 @@ type c16Scenario struct {
 	FixedPool int             `json:"fixed_pool"`
 	Random    bool            `json:"random_order"`
 	Dups      bool            `json:"some_elements_twice,omitempty"`
+	Nested    bool            `json:"f_calls_PMap_itself,omitempty"`
 	Durs      []time.Duration `json:"durations"`
 	NilF      bool            `json:"nil_function"`
 	// further PMap calls made with the SAME option object (a caller-owned value PMap must treat as read-only):
@@ -52,6 +53,7 @@ type c16Scenario struct {
 	ends   map[int][]uint64
 	op     *Op
 	anyOp  *Op
+	extra  []Violation
 	hung   bool
 }
 
@@ -107,6 +109,17 @@ func genC16(t *simrt.Tape, tier string) Scenario {
 		sc.Durs = append(sc.Durs, d)
 	}
 	sc.NilF = t.Bool(1, 40)
+	// f may itself call PMap (re-entrancy): the inner calls are calls like any other
+	sc.Nested = t.Bool(1, 6)
+	if t.Bool(1, 20000) {
+		// rarely: a list far beyond any plausible internal limit, no pool option, re-entrant f
+		sc.Nested, sc.HasOpt, sc.NilF = true, false, false
+		sc.List, sc.Durs = nil, nil
+		for i := 0; i < 1100; i++ {
+			sc.List = append(sc.List, i*7)
+			sc.Durs = append(sc.Durs, time.Millisecond)
+		}
+	}
 	if sc.HasOpt && !sc.NilF && t.Bool(1, 3) {
 		ne := 1 + t.Choose(3)
 		for e := 0; e < ne; e++ {
@@ -135,6 +148,10 @@ func c16g(x int) int { return x*3 + 1 }
 func (sc *c16Scenario) Run(s *simrt.Sim) {
 	h := &Hist{S: s}
 	sc.h = h
+	// package-level state of the library (if any) is re-created inside every simulation, so that whatever PMap calls
+	// share between each other is made of simulated channels (see C12's default Handler); every run does it, because
+	// a channel made in an earlier simulation of this process must not be touched by a later one
+	fpgo.SimReinit()
 	sc.begins = map[int][]uint64{}
 	sc.ends = map[int][]uint64{}
 	durOf := map[int]time.Duration{}
@@ -146,6 +163,11 @@ func (sc *c16Scenario) Run(s *simrt.Sim) {
 		s.Yield()
 		if d := durOf[x]; d > 0 {
 			s.Sleep(d)
+		}
+		if sc.Nested {
+			if r := fpgo.PMap(func(v int) int { s.Yield(); return v + 1 }, nil, x, x+1); fmt.Sprint(r) != fmt.Sprint([]int{x + 1, x + 2}) {
+				sc.extra = append(sc.extra, Violation{Clause: "result", Fingerprint: "nested:PMap-called-from-inside-f", Detail: fmt.Sprintf("PMap(+1, nil, %d, %d) called from inside f returned %v", x, x+1, r)})
+			}
 		}
 		s.Yield()
 		sc.ends[x] = append(sc.ends[x], s.Stamp())
@@ -222,6 +244,7 @@ func (sc *c16Scenario) Check(res *simrt.Result) []Violation {
 		return vs
 	}
 	vs = append(vs, opPanics(sc.h)...)
+	vs = append(vs, sc.extra...)
 	mode := "ordered"
 	if sc.HasOpt && sc.Random {
 		mode = "random"
